@@ -32,8 +32,26 @@ CLAIM = {
             "every ordered pair of pool inputs is evaluated back to back (K*K+1 evaluations) with the expected answers; the driver replays it on "
             "ONE compiled expression - optimised and unoptimised, sequentially and from 4 goroutines. B2: one compiled expression per stream is "
             "fed random hourly (and finer/coarser, partly out-of-order) streams across boundaries in all 10 zones, printed texts, and texts of "
-            "changing shape; TLC replays Step over each recorded history.",
-    "note": "Bounded: instants 1970-2100 whole seconds; quick tier subsamples years/zones by VERIF_SEED (thorough: every year). The host tz "
+            "changing shape; TLC replays Step over each recorded history. "
+            "ZONES AS TRANSITION TABLES (TimeCal.TableZone, TimeTab.tla): a supported zone is, in general, the sorted table of the instants at which its "
+            "UTC offset or name changes; offset(t) is the table lookup, the calendar fields are the civil date and clock of t + offset(t), the bucket of "
+            "t is those fields truncated in the zone's own wall clock (BucketStart - never re-built through a constructor), a zone-less text denotes the "
+            "instants whose reading it is (none in a gap, two in an overlap). The tables of 19 IANA zones (midnight / first-of-month DST changes: "
+            "Havana, Santiago, Asuncion, Beirut, Sao_Paulo, Cairo; no DST now but another offset earlier: Shanghai, Seoul, Hong_Kong, Moscow, Istanbul; "
+            "New_York and Berlin back to 1970, Lord_Howe (30-minute DST), Kathmandu (+5:45), Apia (date line 2011), Etc/GMT+5, Etc/GMT-14, UTC) are read "
+            "by the driver from Go's time package (LoadLocation + Zone() sampling and bisection, not through the code under test) and handed to TLC as "
+            "data. TimeTab_MC: on generated tables (4 standard offsets x 30/60-minute DST x changes at local 00:00/02:00 x mid-month/first-of-month, "
+            "northern/southern, a 24 h date-line jump, a moving standard offset, a name-only change, a fixed zone) and on every transition of the host "
+            "tables TLC checks OffsetLaw (lookup total, piecewise constant, binary search = definition), MonoLaw, JumpLaw (gap: no reading, overlap: two), "
+            "BucketLaw (a bucket never starts after its instant, holds it, its text is the prefix of timeformat of the same instant - day bucket = date "
+            "part), RtLaw, AttrLaw, RuleAgree (host tables of New York >= 2007 and Berlin >= 1996 equal the rule zones); controls refuted by TLC: the bucket "
+            "start re-built through a normalising constructor (time.Date's resolution) and a zone flattened to its current-year offset. B1 (TimeTab_Gen): "
+            "for EVERY transition of every table the instants t-1, t, the next local day start (and, for a seed-dependent tenth - all when thorough - "
+            "t+1, +-1 h, +-1 day and the local day/month/quarter/year starts next to it) x timeformat layouts, all attributes, time and buckettime of the "
+            "zone-less wall clock for every bucket size, the nested round trips, all with the zone argument; B2 (c18 ztrace, TimeTab_Trace): random, "
+            "near-transition and near-local-midnight instants recorded from the real code and validated by TLC against the tables.",
+    "note": "Table zones: 19 listed IANA zones (those the host has), not every zone of the database; two changes of one zone within 3 hours would "
+            "be reported by the driver as an error (none occurs). Bounded: instants 1970-2100 whole seconds; quick tier subsamples years/zones by VERIF_SEED (thorough: every year). The host tz "
             "database is trusted outside the modelled zones; zone abbreviations of the modelled zones are taken as printed by tzdata (EST/EDT, "
             "CET/CEST, AEST/AEDT, IST, +14 ..). ParseM is strict (widths and spellings Format prints); a text the strict parser rejects is "
             "demanded to give <PARSE-ERROR> only for the generated classes (one character replaced, truncated, extended, impossible date or "
@@ -47,7 +65,8 @@ CLAIM = {
     "technique": "TLA+ functional specification model-checked with TLC (calendar, DST and round-trip laws) + model-generated boundary vectors "
                  "replayed on the real code + TLC validation of recorded evaluations; state machine over evaluation histories of one compiled "
                  "expression with negative controls, TLC-generated all-pairs histories replayed on one compiled expression (sequential and "
-                 "concurrent), TLC validation of recorded random streams",
+                 "concurrent), TLC validation of recorded random streams; zones as transition tables handed to TLC as data (host zoneinfo), laws "
+                 "with refuted design controls, vectors around every transition replayed on the real code, recorded evaluations validated by TLC",
 }
 
 os.environ.setdefault("JAVA_TOOL_OPTIONS", "-XX:ParallelGCThreads=2")
@@ -118,12 +137,117 @@ def _check(run):
         "format detection ('auto', 'cache', format omitted): demanded for the shapes rfc3339 (Z / +hh:mm), 'YYYY-MM-DD hh:mm:ss' with and without "
         "-hhmm, RFC1123Z, for texts made of x # ? only and for the empty text; 'the first seen date determines the format' is read as: a later "
         "text of a different one of these shapes yields the error marker; Z after +hh:mm (and vice versa) is left open",
+        "table zones (TimeTab.tla): the transition tables (instants, offsets, abbreviations) of the listed IANA zones are read from the host's zoneinfo "
+        "database through Go's time package (time.LoadLocation + Zone(), every change located by sampling every 3 h and bisection, cross-checked "
+        "against 20000 random lookups) - the zoneinfo database and that lookup are the trusted base; civil date, clock, weekday, ISO week, quarter, "
+        "formatting, parsing and bucket truncation are computed by TLC. Zones the host does not have and zones with an offset that is not whole minutes "
+        "are skipped (inconclusive only if no listed zone with transitions loads). A zone-less text that is the reading of no instant (gap) or of two "
+        "(overlap) is outside the domain of `time`; `buckettime` of an overlap text is demanded (both readings carry the same wall clock)",
         "a compiled expression may be evaluated by several goroutines at once (rare's extractor workers share it): helpers that remember "
         "nothing must answer as a fresh expression from every goroutine",
     ]
     run.build_harness()
     seed = run.seed
-    slots = _Slots(8)
+    slots = _Slots(6 if quick else 8)
+
+    # ---- zones as transition tables: the tables of the host's IANA zones, read by the driver from Go's time package
+    zones_path = os.path.join(run.scratch, "c18-zones.json")
+    run.drv(["zonetab", "-out", zones_path])
+    zfile = json.load(open(zones_path))
+    ztrans = sum(len(z["tab"]) - 1 for z in zfile["zones"])
+    if not [z for z in zfile["zones"] if len(z["tab"]) > 1]:
+        raise Inconclusive("none of the listed IANA zones with transitions loads on this host (skipped: %s)" % zfile["skipped"])
+    run.cov["table_zones"] = {z["name"]: len(z["tab"]) - 1 for z in zfile["zones"]}
+    run.cov["table_zones_skipped"] = zfile["skipped"]
+    zfiles = [("zones.json", zones_path)]
+
+    def z_b3():
+        def mc(design, workers, label):
+            cfg = ("INIT Init\nNEXT Next\nCONSTANTS Thorough = %s\n Seed = %d\n Design = \"%s\"\nINVARIANTS LawOK\nCHECK_DEADLOCK FALSE\n"
+                   % ("FALSE" if quick else "TRUE", seed, design))
+            with slots.take(workers):
+                return run.tlc("TimeTab_MC", cfg, files=zfiles, workers=workers, timeout=3000, xmx="4g", label=label)
+
+        def main():
+            r = mc("spec", 3, "TimeTab_MC laws of table zones (generated tables + %d host transitions)" % ztrans)
+            require_clean(run, r, "TimeTab_MC (table zone laws)")
+            if r.distinct < 6000:
+                raise Inconclusive("table zone law check explored only %d cases" % r.distinct)
+            return r
+
+        def controls():
+            for design in ("rebuild", "flat"):
+                rc = mc(design, 1, "TimeTab_MC control Design=%s (must violate LawOK)" % design)
+                other = [e for e in rc.errors if "Invariant LawOK is violated" not in e and "The behavior up to this point" not in e]
+                if other or rc.violated != ["LawOK"]:
+                    raise Inconclusive("table zone control Design=%s: expected a violation of LawOK, TLC says violated=%s errors=%s" % (
+                        design, rc.violated, rc.errors[:2]))
+
+        r, _ = parallel([main, controls], 2)
+        run.cov["table_zone_controls"] = ("bucket start re-built through a normalising constructor: BucketLaw violated where a zone skips the first "
+                                          "second of a day/month; zone without DST in the current year flattened to a fixed offset: OffsetLaw violated")
+        return r
+
+    def z_b1():
+        cfg = ("INIT Init\nNEXT Next\nCONSTANTS Thorough = %s\n Seed = %d\nINVARIANTS Dump\nCHECK_DEADLOCK FALSE\n"
+               % ("FALSE" if quick else "TRUE", seed))
+        with slots.take(3):
+            r = run.tlc("TimeTab_Gen", cfg, files=zfiles, workers=3, timeout=3000, xmx="6g",
+                        label="TimeTab_Gen (every transition of %d table zones) Thorough=%s" % (len(zfile["zones"]), not quick))
+        if r.violated or r.errors or not r.finished:
+            raise Inconclusive("table zone generator failed: %s" % r.out[-2000:])
+        vec_path = os.path.join(run.scratch, "c18-zvectors.ndjson")
+        res_path = os.path.join(run.scratch, "c18-zreplay.json")
+        n = 0
+        with open(vec_path, "w") as f:
+            for v in vfj_lines(r.out):
+                f.write(json.dumps(v, separators=(",", ":")) + "\n")
+                n += 1
+        r.out = r.out[-4000:]
+        if n < 2 * ztrans:
+            raise Inconclusive("table zone generator produced only %d vector lines for %d transitions" % (n, ztrans))
+        run.drv(["replay", "-in", vec_path, "-out", res_path])
+        res = json.load(open(res_path))
+        os.remove(vec_path)
+        return res
+
+    z_trace = os.path.join(run.scratch, "c18-ztrace.ndjson")
+
+    def z_b2():
+        run.drv(["ztrace", "-out", z_trace, "-n", 300 if quick else 5000])
+        z_lines = open(z_trace).read().splitlines()
+        lines = list(z_lines)
+        for ln in z_lines[:4000:17]:      # canary: corrupted copies must be rejected
+            rec = json.loads(ln)
+            rec["got"] = rec["got"] + [48]
+            rec["canary"] = True
+            lines.append(json.dumps(rec, separators=(",", ":")))
+        k = 1 if quick else 6
+        per = (len(lines) + k - 1) // k
+        zchunks = []
+        for i in range(k):
+            part = lines[i * per:(i + 1) * per]
+            if not part:
+                continue
+            pth = os.path.join(run.scratch, "c18-zchunk-%d.ndjson" % i)
+            with open(pth, "w") as f:
+                f.write("\n".join(part) + "\n")
+            zchunks.append((i, pth, part))
+
+        def val(i, pth):
+            time.sleep(0.4 * i + 0.2)
+            cfg = "SPECIFICATION TSpec\nINVARIANTS Final\nCHECK_DEADLOCK FALSE\n"
+            with slots.take(1):
+                r = run.tlc("TimeTab_Trace", cfg, files=zfiles + [("trace.ndjson", pth)], workers=1, timeout=3000, xmx="3g",
+                            label="TimeTab_Trace chunk %d" % i)
+            if r.violated or r.errors:
+                raise Inconclusive("trace validation TimeTab_Trace failed to run: %s %s\n%s" % (r.violated, r.errors[:3], r.out[-3000:]))
+            res = r.json_out("bad.json")
+            if res is None:
+                raise Inconclusive("trace validation TimeTab_Trace wrote no result\n%s" % r.out[-3000:])
+            return res, r
+
+        return z_lines, zchunks, parallel([lambda i=i, pth=pth: val(i, pth) for i, pth, _ in zchunks], k)
 
     # ---- B3: the calendar / DST / round-trip / duration laws on the model
     def b3():
@@ -295,14 +419,69 @@ def _check(run):
 
         return s_lines, hchunks, parallel([lambda i=i, p=p: val(i, p) for i, p, _ in hchunks], k)
 
-    # every job is submitted at once; `slots` keeps the number of TLC workers at 8
-    (_, parts, (b2_lines, chunks, results), _, hparts, (hs_lines, hchunks, hresults)) = parallel([
+    # every job is submitted at once; `slots` keeps the number of TLC workers at 6 (thorough: 8)
+    (_, parts, (b2_lines, chunks, results), _, hparts, (hs_lines, hchunks, hresults), _, zres, (z_lines, zchunks, zresults)) = parallel([
         b3,
         lambda: parallel([lambda p=p: b1_part(p) for p in range(nparts)], 2),
         b2,
         h_b3,
         lambda: parallel([lambda p=p: h_b1(p) for p in range(h_nparts)], 2),
-        h_b2], 6)
+        h_b2,
+        z_b3, z_b1, z_b2], 9)
+
+    # ---- table zones: B1
+    if zres["runs"] < 40 * ztrans:
+        raise Inconclusive("only %d generated calls of the table zones were replayed" % zres["runs"])
+    run.cov["b1_table_zone_vector_lines"] = zres["lines"]
+    run.cov["b1_table_zone_evaluations"] = zres["runs"]
+    run.cov["b1_table_zone_transitions"] = ztrans
+    run.cov["b1_table_zone_per_function"] = zres["per_func"]
+    run.cov["traces_validated_against_impl"] += zres["runs"]
+    run.cov["evaluations"] += zres["runs"]
+    run.cov["distinct_nontrivial"] += zres["distinct"]
+    for s_ in (zres["samples"] or [])[:2]:
+        run.sample({"b1_table_zone": s_})
+    for m in zres["mismatches"] or []:
+        run.violation("b1:tab:" + m["sig"],
+                      "%s with {0} = %r (optimise=%s, group %s) evaluates to %r%s%s; TimeTab.tla (the zone as the transition table of the host's "
+                      "zoneinfo) expects %r (%d such calls disagree)" % (
+                          m["template"], m["input"], m["opt"], m["g"], m["got"], " (compile error)" if m["cerr"] else "",
+                          " PANIC " + m["panic"] if m["panic"] else "", m["expect"], zres["mismatch_counts"].get(m["sig"], 1)), m)
+
+    # ---- table zones: B2
+    zconsumed = znontrivial = zcanary = zcanary_rejected = 0
+    zbad_per_sig = {}
+    for (i, pth, part), (r, _) in zip(zchunks, zresults):
+        zcanary += sum(1 for ln in part if '"canary":true' in ln)
+        if r["consumed"] != len(part) or not r["done"]:
+            raise Inconclusive("table zone trace chunk %d: consumed %d of %d records" % (i, r["consumed"], len(part)))
+        zconsumed += r["consumed"]
+        znontrivial += r["nontrivial"]
+        for bad in r["bad"]:
+            rec = json.loads(part[bad["l"] - 1])
+            if rec.get("canary"):
+                zcanary_rejected += 1
+                continue
+            sg = "b2:tab:" + _sig(rec)
+            zbad_per_sig[sg] = zbad_per_sig.get(sg, 0) + 1
+            if zbad_per_sig[sg] > 5:
+                continue
+            run.violation(sg,
+                          "recorded evaluation %s(x=%r, fmt=%r, zone=%r, b=%r, %d arguments) = %r%s%s is rejected by TimeTab.tla (zone = its "
+                          "transition table)" % (rec["f"], _txt(rec["x"]), rec["fmt"], rec["z"], rec["b"], rec["n"], _txt(rec["got"]),
+                                                 " (compile error)" if rec["cerr"] else "", " PANIC" if rec["panic"] else ""), rec)
+    if zcanary_rejected * 5 < zcanary * 3:
+        raise Inconclusive("table zone trace validation rejected only %d of %d deliberately corrupted records" % (zcanary_rejected, zcanary))
+    zconsumed -= zcanary
+    run.cov["b2_table_zone_records"] = zconsumed
+    run.cov["b2_table_zone_records_inside_domain"] = znontrivial - zcanary_rejected
+    run.cov["b2_table_zone_corrupted_records_rejected"] = "%d of %d" % (zcanary_rejected, zcanary)
+    run.cov["traces_validated_against_impl"] += zconsumed
+    run.cov["evaluations"] += zconsumed
+    if z_lines:
+        run.sample({"b2_table_zone_record": json.loads(z_lines[len(z_lines) // 3])})
+    if znontrivial * 2 < zconsumed:
+        raise Inconclusive("only %d of %d recorded table zone evaluations are inside the specified domain" % (znontrivial, zconsumed))
 
     for res in parts:
         replay["lines"] += res["lines"]
